@@ -37,6 +37,9 @@ inductive SrcCall where
   | loc (name : NameKey)
   | fp (name : NameKey)
   | sup (parent : Option Nat) (name : NameKey)     -- `A::f()` (A = index of the program) / `::f()`
+  | stashSup (parent : Option Nat) (name : NameKey)  -- `(: A::f() :)` made and stored
+  | stashLoc (name : NameKey)                       -- `(: f() :)` made and stored
+  | runStash                                        -- the stored functional is fetched and evaluated (no operand of its own)
   deriving Repr, BEq, DecidableEq
 
 /-- one top-level item of a source file, in source order -/
@@ -194,6 +197,11 @@ def compileCalls (w : World) (s : BState) (calls : List SrcCall) : List CallOp :
     | .loc n => (s.ident n).map CallOp.loc
     | .fp n => (s.ident n).map CallOp.fp
     | .sup par n => arrangeCallInherited w s par n
+    | .stashSup par n => (arrangeCallInherited w s par n).map fun
+        | .sup k i => CallOp.stashSup k i
+        | o => o
+    | .stashLoc n => (s.ident n).map CallOp.stashLoc
+    | .runStash => some CallOp.runStash
 
 def doItem (w : World) (s : BState) : Item → BState
   | .inh mods q => doInherit w s mods q
@@ -271,11 +279,16 @@ def buildProgram (w : World) (name : String) (id : Nat) (items : List Item) (hea
 /-! ### rendering in the format of the harness' `tbl` line -/
 
 def renderOps (ops : List CallOp) : String :=
-  if ops.isEmpty then "-" else
-  "+".intercalate (ops.map fun
-    | .loc i => s!"L{i}"
-    | .fp i => s!"F{i}"
-    | .sup a b => s!"S{a}.{b}")
+  -- what the bytecode shows: the call inside a stored functional looks like any other; fetching the stored functional
+  -- back has no operand
+  let shown := ops.filterMap fun
+    | .loc i => some s!"L{i}"
+    | .fp i => some s!"F{i}"
+    | .sup a b => some s!"S{a}.{b}"
+    | .stashSup a b => some s!"S{a}.{b}"
+    | .stashLoc i => some s!"L{i}"
+    | .runStash => none
+  if shown.isEmpty then "-" else "+".intercalate shown
 
 def renderTbl (w : World) (P : Program) : String :=
   let ft := if P.ft.isEmpty then "-" else
